@@ -823,7 +823,7 @@ def ioLoop (fuel : Nat) (st : St) (idx : Nat) : St :=
 
 /-- `errno` as `evloop_run` looks at it when `ppoll` returned -1: `afterPoll` is the state right after
     the wait, `st` the state after `tickit_evloop_invoke_timers`. -/
-def errnoSeen (afterPoll st : St) : Int := if st.cfg.errnoSaved then afterPoll.errno else st.errno
+def errnoSeen (afterPoll st : St) : Int := if afterPoll.cfg.errnoSaved then afterPoll.errno else st.errno
 
 /-- `evloop_run` after the wait (lines 159–188): timers and deferred callbacks, then descriptors or signals. -/
 def tickAfterPoll (fuel : Nat) (st : St) (ret : Option Nat) : St :=
